@@ -117,6 +117,25 @@ func C13() int {
 		add(x)
 	}
 	dotted = append(dotted, []string{"shopdb", "$cmd"}, []string{"$cmd", "aggregate"}, []string{"shopdb", "$cmd", "aggregate"}, []string{"owner", "$id"}, []string{"a", "$b", "c"}, []string{"$a", "$b"})
+	// long components (flattened / generated keys, long CJK names) that share their first 64 / 128 / 255 bytes, and
+	// paths with more components than any document nests (a key is a string: it may hold any number of dots)
+	long := []string{}
+	for _, n := range []int{63, 64, 65, 127, 128, 129, 255, 256, 1000} {
+		base := strings.Repeat("x", n)
+		long = append(long, base, base+"_billing", base+"_shipping")
+	}
+	long = append(long, strings.Repeat("名", 60)+"前", strings.Repeat("名", 60)+"後", strings.Repeat("segment_", 20)+"a", strings.Repeat("segment_", 20)+"b")
+	for _, x := range long {
+		add(x)
+	}
+	dotted = append(dotted, []string{long[0], long[4]}, []string{long[13], long[14], "a"})
+	for _, depth := range []int{99, 100, 101, 120, 300} {
+		parts := make([]string, depth)
+		for j := range parts {
+			parts[j] = comps[(j*7+depth)%len(comps)]
+		}
+		dotted = append(dotted, parts)
+	}
 	dotted = append(dotted, []string{"items", "1", "sku"}, []string{"items", "2", "sku"}, []string{"a", "0"}, []string{"a", "10", "b", "3"}, []string{"0", "1"}, []string{"items", "007"})
 	var dollar []string
 	for i := 0; i < 5000; i++ {
